@@ -322,8 +322,8 @@ func scalarTV(st scalarType, d string) *sdcpb.TypedValue {
 		}
 		return &sdcpb.TypedValue{Value: &sdcpb.TypedValue_DecimalVal{DecimalVal: &sdcpb.Decimal64{Digits: u.Int64(), Precision: uint32(len(fp))}}}
 	case t == "binary":
-		b, _ := base64.StdEncoding.DecodeString(d)
-		return &sdcpb.TypedValue{Value: &sdcpb.TypedValue_BytesVal{BytesVal: b}}
+		// data-server carries binary as the base64 text (utils.ConvertBinary)
+		return &sdcpb.TypedValue{Value: &sdcpb.TypedValue_StringVal{StringVal: d}}
 	case t == "identityref":
 		return &sdcpb.TypedValue{Value: &sdcpb.TypedValue_IdentityrefVal{IdentityrefVal: &sdcpb.IdentityRef{Value: d, Module: Identities[d]}}}
 	}
